@@ -48,6 +48,7 @@ bool prop(Tape &t, Report &R) {
   static const char *fn[] = {"flow:global", "flow:legalize", "flow:detailed", "flow:global-legalize-detailed",
                              "flow:global-detailed", "flow:legalize-legalize-detailed"};
   bool usesGlobal = flow == 0 || flow == 3 || flow == 4;
+  HistoryScope hist(t, R);
   GenOpts o;
   o.maxCells = R.thorough() ? 40 : 20;
   o.maxLevels = R.thorough() ? 12 : 8;
